@@ -9,6 +9,7 @@ package main
 // A sweep of programs outside the fragment goes through node only.
 
 import (
+	"regexp"
 	"bytes"
 	"fmt"
 	"runtime"
@@ -1331,6 +1332,9 @@ func c01KnownAndCorpus(c *Ctx) error {
 	return nil
 }
 
+// spreading / enumerating `this` (the global object at top level): observes the creation order of global `var`s
+var c01ReEnumThis = regexp.MustCompile(`\.\.\.\s*\(*\s*this\b|\b(in|of)\s+\(*\s*this\b|\b(keys|entries|values|assign|getOwnPropertyNames)\(\s*\(*\s*this\b|\}\s*=\s*\(*\s*this\b`)
+
 func c01Sweep(c *Ctx) error {
 	// forms under open known findings are not generated (the findings are replayed by c01KnownAndCorpus)
 	for t := range c01OpenTriggers {
@@ -1341,7 +1345,7 @@ func c01Sweep(c *Ctx) error {
 	var cases []*c01Case
 	rejected := 0
 	for _, src := range progs {
-		if strings.Contains(src, "...this") || strings.Contains(src, " in this") || strings.Contains(src, " of this") {
+		if c01ReEnumThis.MatchString(src) {
 			// enumerating the global object observes the creation order of global `var`s, which hoisting may change
 			continue
 		}
